@@ -19,7 +19,7 @@ func init() { Registry["C05"] = runC05 }
 func runC05(tier string, _ []string) int {
 	c := vlib.NewCtx("C05", tier, "exploration")
 	vlib.SetPortBlock(5)
-	c.SetRule("per case a fresh instance with a random graph (C03/C06 generators), then PRNG requests of the classes that must be refused (tombstone on the root; self edge; new edge closing a cycle through live or deleted edges, sent raw and through client.MoveNode / client.MirrorNode; first edge without nodeType; NaN at any position of a node or edge batch, quiet and signalling, both signs) mixed with legal look-alikes that must be accepted (mirror to a non-ancestor, tombstone 0 on the root, +-Inf) and open-status requests (undecodable payloads, root tombstone 2, a request of the bus's maximum payload size - or up to 13 bytes less - made of copies of one identity without time stamps). Monitor: reply of each request; full dump (placements, points, edge points, hashes) before/after every request answered with an error must be identical; an up.> tap drained at the reply barrier must be empty; a follow-up acknowledged write to an unrelated node must be answered. distinct = (request class, graph size bucket, outcome) Finally 1500 refusals (cycles, NaN, missing node type, root tombstone, self edge) on one instance: the process must hold as many file descriptors and goroutines afterwards as before.")
+	c.SetRule("per case a fresh instance with a random graph (C03/C06 generators), then PRNG requests of the classes that must be refused (tombstone on the root; self edge; new edge closing a cycle through live or deleted edges, sent raw and through client.MoveNode / client.MirrorNode; first edge without nodeType; NaN at any position of a node or edge batch, quiet and signalling, both signs) mixed with legal look-alikes that must be accepted (mirror to a non-ancestor, tombstone 0 on the root, +-Inf) and open-status requests (undecodable payloads, root tombstone 2, a request of the bus's maximum payload size - or up to 13 bytes less - made of copies of one identity without time stamps). Monitor: reply of each request; full dump (placements, points, edge points, hashes) before/after every request answered with an error must be identical; an up.> tap drained at the reply barrier must be empty; a follow-up acknowledged write to an unrelated node must be answered. distinct = (request class, graph size bucket, outcome) (Thorough tier: a node placed below 1030-1090 parents; edges that would put its far ancestors below it must be refused.) Finally 1500 refusals (cycles, NaN, missing node type, root tombstone, self edge) on one instance: the process must hold as many file descriptors and goroutines afterwards as before.")
 	c.Assume("a stack overflow / process death caused by a cycle is reported by the check wrapper as a violation (process-death)")
 	nGraphs := c.N(40, 400)
 	perGraph := c.N(32, 48)
@@ -513,6 +513,51 @@ func runC05(tier string, _ []string) int {
 			}
 		}
 	})
+	// ---- scale (thorough tier): a node with more than a thousand parents; the far end of all those ways up is
+	// still an ancestor, and an edge that puts it below the node is a cycle like any other
+	if tier == "thorough" && !vlib.Aborted() {
+		func() {
+			r := vlib.NewR(c.Seed, "c05wide", 0)
+			in, err := vlib.StartInstance(vlib.InstCfg{ID: "c05-wide"})
+			if err != nil {
+				c.Inconclusive(err.Error())
+				return
+			}
+			defer in.Stop()
+			nc, err := in.Connect()
+			if err != nil {
+				c.Inconclusive(err.Error())
+				return
+			}
+			d := newGdriver(r, nc, in.RootID, "wd")
+			n := 1030 + r.Intn(60)
+			hub, groups, p, err := buildWide(d, in.RootID, n, "group")
+			if err != nil {
+				c.Violate("store:legal-write-refused", "wide graph: "+err.Error(), map[string]any{"stage": "wide"})
+				return
+			}
+			wit := map[string]any{"stage": "wide", "seed": c.Seed, "parents": n}
+			for _, anc := range []string{hub, groups[n-1], groups[n/2], in.RootID} {
+				done := wd.Watch("refused-write:request-not-answered:cycle-wide", wit, 120*time.Second, true)
+				reply, err := vlib.SendAck(nc, vlib.EdgeSubj(anc, p), data.Points{{Type: data.PointTypeTombstone, Time: d.now()}, {Type: data.PointTypeNodeType, Text: "group"}})
+				done()
+				c.Eval(1)
+				if err != nil {
+					c.Violate("refused-write:request-not-answered:cycle-wide", fmt.Sprintf("no reply to an edge that puts ancestor %s below a node with %d parents: %v", anc, n, err), wit)
+					return
+				}
+				if reply == "" {
+					c.Violate("refused-write:accepted:cycle-wide", fmt.Sprintf("an edge that puts ancestor %s below a node with %d parents (a cycle) was acknowledged", anc, n), wit)
+					return
+				}
+			}
+			if e, err := d.sendNode(p, d.somePoints(2)); err != nil || e != "" {
+				c.Violate("refused-write:later-request-not-answered", fmt.Sprintf("write after the refused cycles: %v %s", err, e), wit)
+				return
+			}
+			c.Count("cycles_refused_below_a_thousand_parents", 4)
+		}()
+	}
 	// ---- refusals leave nothing behind in the process either: after several hundred refusals of each
 	// kind on one instance it holds as many file descriptors and goroutines as before (an instance that
 	// leaks one per refusal stops answering once the limit is reached)
